@@ -25,6 +25,7 @@ ASSUMPTIONS = [
     "code outside the lal and naza modules (standard library) is not walked: function literals passed to it are assumed to be called synchronously with the caller's locks held; methods of lal/naza types matching a standard-library interface method are followed when such an object is passed; objects stored inside standard-library wrappers (bufio around a connection) and calls made by reflection (fmt verbs calling String/Error) are not followed",
     "locks of the standard library are not tracked (assumed leaf locks)",
     "the analysed build is the production one (no verif tag, pkg/innertest excluded)",
+    "channel discipline: channels are classes (pkg.Type.field, func$variable), a class closed anywhere obliges all its send sites; recognised protocols: common mutex + flag the closer writes and the sender reads (syntactic: same functions), all sends and closes in one function with no send reachable after a close, WaitGroup Done in the sender / Wait before the close; channels handed around as parameters are classes of their own; double close and receive-side behaviour are not checked",
     "publication order: publication = a call into the consumer package (logic) that retains the object, a go statement, a channel send, a map store under a lock; 'shared' = reached by another goroutine through the published object (per type, not per instance); only plain stores count as writes (address-taking calls are followed into lal/naza code, not into the standard library); guessed standard-library callbacks are ignored for this fact; the Coq-checked traces unroll loops twice and are capped at 512 per function (coverage.publication_order.truncated_functions), order across activations beyond that is decided by the translator's walk (pub_walk_violations)",
 ]
 FULL_OUTPUT = True
@@ -37,6 +38,9 @@ PROP_V = os.path.join(ROOT, "coq", "theories", "Properties", "C20.v")
 KNOWN_LEAK_IDS = {"(*nazalog.logger).Out": "C20-naza-log-lock-leak"}
 # race reports whose innermost lal frame (either side) is listed here are a known finding; any other report is a violation
 KNOWN_RACE_SITES = {}
+# artefacts of the soak harness, not of the server: cmd/lalrace runs several server lifetimes in ONE process, and every
+# NewLalServer re-initialises naza's global logger while goroutines of the previous lifetime may still log
+HARNESS_RACE_SITES = ("nazalog.(*logger).Init", "logic.LoadConfAndInitLog")
 
 
 def gen_cases(tier, rng):
@@ -327,6 +331,25 @@ def run(ctx, cases, cov, violations, known_hits, notes):
                   dict(oracle=False, broken=None, why="publication order (trace check)", trace=bad_trace[3]))
         reported = True
 
+    # 5c. channel discipline: a send site of a channel that is closed somewhere, justified by no protocol
+    ch = g.get("channel") or {}
+    chans = ch.get("channels", [])
+    cov["channel_discipline"] = dict(channel_classes=len(chans), closed_somewhere=[c["class"] for c in chans if c["closes"]],
+                                     never_closed=dict((c["class"], len(c["sends"])) for c in chans if not c["closes"]),
+                                     justified_send_sites=[dict(channel=c["class"], send=s["pos"], protocol=s["protocol"], why=s["why"])
+                                                           for c in chans if c["closes"] for s in c["sends"] if s.get("protocol")],
+                                     violations=len(ch.get("violations", [])))
+    for v in ch.get("violations", [])[:5]:
+        cov["oracle_failed"] = cov.get("oracle_failed", 0) + 1
+        violation("oracle", "send on %s at %s (%s) can follow its close at %s (%s): %s" % (
+            v["class"], v["send"]["pos"], v["send"]["func"], v["close"]["pos"], v["close"]["func"], v["why"]),
+            dict(oracle=False, broken=None, why="channel discipline: send on a closed channel is possible",
+                 pair=dict(channel=v["class"], close_site=v["close"], send_site=v["send"]),
+                 failing_schedule=[dict(goroutine=1, runs=v["send"]["func"], reaches="the send at %s (past any flag test)" % v["send"]["pos"]),
+                                   dict(goroutine=2, runs=v["close"]["func"], then="close at %s" % v["close"]["pos"]),
+                                   dict(goroutine=1, then="sends: panic: send on closed channel")]))
+        reported = True
+
     # 6. lock leaks and sites the translator could not attribute
     for leak in g["lock_leaks"][:5]:
         violation("oracle", "function returns holding a lock it acquired: %s" % leak,
@@ -359,7 +382,7 @@ def run(ctx, cases, cov, violations, known_hits, notes):
 
     # 8. Coq and python must agree; a failing re-check that nothing above explains is reported as such
     if coq_ok != (py_acyclic and not g["unguarded"] and not g["unresolved"] and not g["lock_leaks"]
-                  and not pub.get("violations") and py_traces_ok):
+                  and not pub.get("violations") and py_traces_ok and not ch.get("violations")):
         violation("proof", "Coq re-check (%s, failing %s) and the python reference (acyclic=%s, unguarded=%d) disagree" % (
             "ok" if coq_ok else "failed", failing, py_acyclic, len(g["unguarded"])),
             dict(broken="theorem %s on the regenerated graph" % failing, log=(log1 + log2)[-3000:]), True)
@@ -543,6 +566,11 @@ def race_soak(ctx, cov, violation, notes):
     m = re.search(r"^lalrace: (.*)$", so, re.M)
     cov["race_soak"] = dict(seconds=round(time.time() - t0, 1), exit=rc, data_race_reports=len(reports), distinct=len(uniq),
                             scenario=(m.group(1) if m else so.strip()[-300:]))
+    ignored = [k for k in uniq if any(site in x for x in k for site in HARNESS_RACE_SITES)]
+    for k in ignored:
+        del uniq[k]
+    if ignored:
+        cov["race_soak"]["harness_artefacts_ignored"] = [" / ".join(k) for k in ignored]
     shown = 0
     for key, rep in uniq.items():
         fid = None
